@@ -342,20 +342,28 @@ for pid, txt in [("C01", "conservation equations on the diffs produced by the re
     }
 PROPS["C13"] = {
     "runs": [
-        {"pkg": "consensus", "harness": ["harness/c13/c13.go", "harness/common/cons_world.go", "harness/common/cons_support.go"], "run": "^VH_C13_(WorkAddSubCmp|ValidateHeader|HeavierAsymmetric)$",
+        {"pkg": "consensus", "harness": ["harness/c13/c13.go", "harness/common/cons_world.go", "harness/common/cons_support.go"], "run": "^VH_C13_(WorkCmp|WorkAddSub|WorkSubOrder|ValidateHeader)$",
          "params": {"quick": {"work_lift": 0, "int_mode": 1, "target_uf": 1, "time_lift": 1, "ntimestamps": 2}, "thorough": {"work_lift": 0, "int_mode": 1, "target_uf": 1, "time_lift": 1, "ntimestamps": 4}},
          "flags": {"quick": ["-timeout", "5000"], "thorough": ["-timeout", "20000"]},
-         "must_reach": {"VH_C13_WorkAddSubCmp": ["end"], "VH_C13_ValidateHeader": ["accepted"], "VH_C13_HeavierAsymmetric": ["end"]},
-         "tv_harnesses": ["VH_C13_WorkAddSubCmp"]},
+         "must_reach": {"VH_C13_WorkCmp": ["end"], "VH_C13_WorkAddSub": ["end", "added", "subtracted"], "VH_C13_WorkSubOrder": ["end"], "VH_C13_ValidateHeader": ["accepted"]},
+         "tv_harnesses": ["VH_C13_WorkCmp", "VH_C13_WorkAddSub"]},
+        {"pkg": "consensus", "harness": ["harness/c13/c13.go", "harness/common/cons_world.go", "harness/common/cons_support.go"], "run": "^VH_C13_HeavierAsymmetric$",
+         "params": {"quick": {"work_lift": 1, "int_mode": 1, "target_uf": 1, "time_lift": 1}, "thorough": {"work_lift": 1, "int_mode": 1, "target_uf": 1, "time_lift": 1}},
+         "flags": {"quick": ["-timeout", "5000"], "thorough": ["-timeout", "20000"]},
+         "must_reach": {"VH_C13_HeavierAsymmetric": ["end"]}},
+        {"pkg": "consensus", "harness": ["harness/c13/c13.go", "harness/common/cons_world.go", "harness/common/cons_support.go"], "run": "^VH_C13_HeavierAsymmetric$",
+         "params": {"quick": {"work_lift": 0, "int_mode": 1, "target_uf": 1, "time_lift": 1}, "thorough": {"work_lift": 0, "int_mode": 1, "target_uf": 1, "time_lift": 1}},
+         "flags": {"quick": ["-timeout", "5000"], "thorough": ["-timeout", "20000"]},
+         "must_reach": {"VH_C13_HeavierAsymmetric": ["end"]}, "thorough_only": True},
         {"pkg": "consensus", "harness": ["harness/c13/c13.go", "harness/common/cons_world.go", "harness/common/cons_support.go"], "run": "^VH_C13_RetargetNoDivZero$",
          "params": {"quick": {"work_lift": 1, "int_mode": 1, "time_lift": 1}, "thorough": {"work_lift": 1, "int_mode": 1, "time_lift": 1}}, "flags": {"quick": ["-timeout", "5000"], "thorough": ["-timeout", "20000"]},
          "must_reach": {"VH_C13_RetargetNoDivZero": ["end"]}},
     ],
     "tv_runs": {"quick": 2, "thorough": 6},
-    "bounds": {"quick": "Work.add/sub/Cmp/min/max: all 2^256 x 2^256 operands (real limb code vs independent carry-chain reference); ValidateHeader accepted <=> (parent ID, timestamp >= median, nonce factor, ID <= target) with 3 distinct previous timestamps and the median checked against its definition; 'sufficiently heavier' asymmetric; FinalCut and v2 retargeting from a concrete proof-of-work state (difficulty 2^40, Oak work 2^50, height 600000, five timestamp drifts) for EVERY Oak time: no division by zero, no underflow, result nonzero and within the 0.4% clamp", "thorough": "4 distinct timestamps"},
+    "bounds": {"quick": "Work.add/sub/Cmp/min/max: all 2^256 x 2^256 operands (real limb code vs independent carry-chain reference; borrow-out == integer order); ValidateHeader accepted <=> (parent ID, timestamp >= median, nonce factor, ID <= target) with 2 distinct previous timestamps and the median checked against its definition; 'sufficiently heavier' asymmetric with Work operations lifted to their 256-bit meaning (justified by the first item; thorough also on the limb code); FinalCut and v2 retargeting from a concrete proof-of-work state (difficulty 2^40, Oak work 2^50, height 600000, five timestamp drifts) for EVERY Oak time: no division by zero, no underflow, result nonzero and within the 0.4% clamp", "thorough": "4 distinct timestamps; 'sufficiently heavier' on the real limb code incl. div64"},
     "outside": ["retargeting from a SYMBOLIC proof-of-work state (adjustDifficultyV2 / FinalCut clamp, totality, monotone total work) and header-vs-block equivalence: harnesses exist (VH_C13_FinalCutClamp, V2Clamp, RetargetTotal, HeaderVsBlock) but z3 4.8.12 does not return within its time limit on the 256-bit multiply/divide chains, in bit-vector or integer rendering; not claimed",
                 "pre-v2 eras (big.Int target arithmetic, float64 clamp)", "invTarget is an uninterpreted function in ValidateHeader (the FinalCut target is 'the' inverse of the difficulty, not checked to be the floored inverse)"],
-    "stubs": ["invTarget: uninterpreted", "time.Time.Sub: (t-u)*1e9 under |t-u| < 2^33 s", "RetargetNoDivZero: Work add/sub/Cmp/mul64/div64 lifted to 256-bit operations (constant x symbolic products exact, symbolic quotients uninterpreted with q <= w)"],
+    "stubs": ["invTarget: uninterpreted", "time.Time.Sub: (t-u)*1e9 under |t-u| < 2^33 s", "HeavierAsymmetric (quick) and RetargetNoDivZero: Work add/sub/Cmp/mul64/div64 lifted to 256-bit operations (constant x symbolic products exact, symbolic quotients uninterpreted with q <= w)"],
     "assumptions": COMMON_ASSUME + IDEAL_CRYPTO,
 }
 MANIFEST_TEXT["C13"] = {
